@@ -26,6 +26,9 @@ use vstore::ops::{Book, Mode, Op, Tok, apply};
 enum Act {
     M(Op),
     Get(u8),
+    /// list(None), drained; while it overlaps a commit it may report either
+    /// version, so only its class is part of the answer
+    List,
 }
 
 #[derive(Clone)]
@@ -33,6 +36,9 @@ struct Scn {
     name: &'static str,
     setup: Vec<Op>,
     tasks: Vec<Vec<Act>>,
+    /// the setup goes through another wrapper instance: the instance under
+    /// test starts with a cold metadata cache
+    cold: bool,
 }
 
 /// What one action answered: class, body of a get, token of a put.
@@ -48,7 +54,9 @@ fn put(k: u8, var: u8, mode: Mode) -> Op {
 
 fn scenarios() -> Vec<Scn> {
     let init = |k: u8| put(k, 0, Mode::Overwrite);
-    let two = |name, setup: Vec<Op>, a: Op, b: Op| Scn { name, setup, tasks: vec![vec![Act::M(a)], vec![Act::M(b)]] };
+    let two =
+        |name, setup: Vec<Op>, a: Op, b: Op| Scn { name, setup, tasks: vec![vec![Act::M(a)], vec![Act::M(b)]], cold: false };
+    let list_vs = |name, setup: Vec<Op>, b: Op| Scn { name, setup, tasks: vec![vec![Act::List], vec![Act::M(b)]], cold: true };
     let upd = |var| put(0, var, Mode::Update(Tok::Latest));
     vec![
         two("update-vs-update-same-token", vec![init(0)], upd(1), upd(2)),
@@ -89,11 +97,13 @@ fn scenarios() -> Vec<Scn> {
             name: "update-vs-update-vs-update",
             setup: vec![init(0)],
             tasks: vec![vec![Act::M(upd(1))], vec![Act::M(upd(2))], vec![Act::M(upd(3))]],
+            cold: false,
         },
         Scn {
             name: "update-vs-get",
             setup: vec![init(0)],
             tasks: vec![vec![Act::M(upd(1))], vec![Act::Get(0)]],
+            cold: false,
         },
         Scn {
             // one writer (put, an unrelated read, put again) and one reader:
@@ -104,15 +114,13 @@ fn scenarios() -> Vec<Scn> {
                 vec![Act::M(put(0, 1, Mode::Overwrite)), Act::Get(2), Act::M(put(0, 2, Mode::Overwrite))],
                 vec![Act::Get(0)],
             ],
+            cold: false,
         },
-        Scn {
-            name: "two-overwrites-vs-get",
-            setup: vec![init(0)],
-            tasks: vec![
-                vec![Act::M(put(0, 1, Mode::Overwrite)), Act::M(put(0, 2, Mode::Overwrite))],
-                vec![Act::Get(0)],
-            ],
-        },
+        // a listing overlapping a commit of a key this instance has never read
+        list_vs("list-vs-put-cold-key", vec![init(0), put(2, 3, Mode::Overwrite)], Op::Put { key: 0, size: 35, var: 1, mode: Mode::Overwrite }),
+        list_vs("list-vs-copy-onto-cold-key", vec![init(0), Op::Put { key: 2, size: 35, var: 3, mode: Mode::Overwrite }], Op::Copy { from: 2, to: 0, create: false }),
+        list_vs("list-vs-multipart-cold-key", vec![init(0), put(2, 3, Mode::Overwrite)], Op::Multi { key: 0, parts: vec![15, 2, 16], var: 2, abort: false }),
+        list_vs("list-vs-update-cold-key", vec![init(0)], Op::Put { key: 0, size: 35, var: 1, mode: Mode::Update(Tok::Latest) }),
     ]
 }
 
@@ -131,6 +139,91 @@ async fn get_act(store: &dyn ObjectStore, k: u8) -> ActOut {
         },
         Err(e) => ActOut { class: class_of(&e), body: None },
     }
+}
+
+async fn list_act(store: &dyn ObjectStore) -> ActOut {
+    use futures::TryStreamExt;
+    match store.list(None).try_collect::<Vec<_>>().await {
+        Ok(_) => ActOut { class: Class::Ok, body: None },
+        Err(e) => ActOut { class: class_of(&e), body: None },
+    }
+}
+
+/// After all tasks returned: everything the LIVE instance answers must
+/// reflect the last completed commit of every key — compared with what a
+/// fresh instance reports. Runs before any plain get / head (those heal a
+/// stale cached pointer and would hide it). Returns the first disagreement.
+async fn post_race(live: &dyn ObjectStore, fresh: &dyn ObjectStore) -> Option<(&'static str, String)> {
+    use futures::TryStreamExt;
+    use object_store::GetOptions;
+    let truth: Vec<object_store::ObjectMeta> = match fresh.list(None).try_collect::<Vec<_>>().await {
+        Ok(v) => v,
+        Err(e) => return Some(("fresh-list-failed", e.to_string())),
+    };
+    let same = |a: &object_store::ObjectMeta, b: &object_store::ObjectMeta| {
+        a.size == b.size && a.e_tag == b.e_tag && a.last_modified == b.last_modified
+    };
+    let show = |m: &object_store::ObjectMeta| format!("({}B, {:?}, {})", m.size, m.e_tag, m.last_modified.timestamp_millis());
+    let mut listed = match live.list(None).try_collect::<Vec<_>>().await {
+        Ok(v) => v,
+        Err(e) => return Some(("list-failed", e.to_string())),
+    };
+    let delim = match live.list_with_delimiter(None).await {
+        Ok(r) => r.objects,
+        Err(e) => return Some(("list_with_delimiter-failed", e.to_string())),
+    };
+    listed.sort_by(|a, b| a.location.cmp(&b.location));
+    let mut t_sorted = truth.clone();
+    t_sorted.sort_by(|a, b| a.location.cmp(&b.location));
+    if listed.len() != t_sorted.len() || listed.iter().zip(&t_sorted).any(|(a, b)| a.location != b.location) {
+        return Some(("list-keys", format!("live list reports {:?}", listed.iter().map(|m| m.location.to_string()).collect::<Vec<_>>())));
+    }
+    for t in &t_sorted {
+        let loc = &t.location;
+        let l = listed.iter().find(|m| m.location == *loc).unwrap();
+        if !same(l, t) {
+            return Some(("list-entry", format!("list reports {} for {loc}, the last commit is {}", show(l), show(t))));
+        }
+        if let Some(d) = delim.iter().find(|m| m.location == *loc)
+            && !same(d, t)
+        {
+            return Some(("list_with_delimiter-entry", format!("list_with_delimiter reports {} for {loc}, the last commit is {}", show(d), show(t))));
+        }
+        let want = match fresh.get(loc).await {
+            Ok(r) => match r.bytes().await {
+                Ok(b) => b,
+                Err(e) => return Some(("fresh-get-failed", e.to_string())),
+            },
+            Err(e) => return Some(("fresh-get-failed", e.to_string())),
+        };
+        let len = t.size;
+        if len > 0 {
+            let ranges = [0..len, len - 1..len];
+            match live.get_ranges(loc, &ranges).await {
+                Ok(v) => {
+                    if v[0] != want || v[1][..] != want[(len - 1) as usize..] {
+                        return Some(("get_ranges-bytes", format!("get_ranges({loc}, [0..{len}, {}..{len}]) answered other bytes than the last commit", len - 1)));
+                    }
+                }
+                Err(e) => return Some(("get_ranges", format!("get_ranges({loc}, [0..{len}, ..]) of the last commit's length failed: {e}"))),
+            }
+        }
+        let opts = GetOptions { if_match: t.e_tag.clone(), ..Default::default() };
+        match live.get_opts(loc, opts).await {
+            Ok(r) => match r.bytes().await {
+                Ok(b) if b == want => {}
+                Ok(_) => return Some(("if_match-bytes", format!("get({loc}, if_match = latest token) answered other bytes"))),
+                Err(e) => return Some(("if_match", format!("get({loc}, if_match = latest token) body failed: {e}"))),
+            },
+            Err(e) => return Some(("if_match", format!("get({loc}, if_match = latest token) failed: {e}"))),
+        }
+        match live.head(loc).await {
+            Ok(h) if same(&h, t) => {}
+            Ok(h) => return Some(("head", format!("head reports {} for {loc}, the last commit is {}", show(&h), show(t)))),
+            Err(e) => return Some(("head", format!("head({loc}) failed: {e}"))),
+        }
+    }
+    None
 }
 
 async fn content_of(store: &dyn ObjectStore) -> Result<Content, String> {
@@ -245,6 +338,7 @@ fn serial_outcomes(scn: &Scn) -> Vec<Serial> {
                 let o = match act {
                     Act::M(op) => ActOut { class: norm(op, apply(&store, &frozen, op).await.class), body: None },
                     Act::Get(k) => get_act(&store, *k).await,
+                    Act::List => list_act(&store).await,
                 };
                 outs[t][*ai] = Some(o);
             }
@@ -302,8 +396,7 @@ fn classify(
     serial: &[Serial],
     outs: &[Vec<ActOut>],
     fin: &Content,
-    switches: &[(usize, usize)],
-    journal: &[vcore::ctlstore::JournalEntry],
+    labels: &[vcore::ctlstore::Label],
 ) -> &'static str {
     // do the answers fit a serial order once the gets are ignored?
     let strip = |o: &[Vec<ActOut>]| -> Vec<Vec<Option<ActOut>>> {
@@ -336,17 +429,21 @@ fn classify(
             if a.class != Class::NotFound {
                 return "get-failed-with-other-error";
             }
-            // NotFound although every serial order answers: how many commits of
-            // the key by other tasks landed during the life of this task?
-            let first = switches.iter().position(|(x, _)| *x == t).unwrap_or(0);
-            let last = switches.iter().rposition(|(x, _)| *x == t).unwrap_or(0);
-            let j0 = switches[first].1;
-            let j1 = switches.get(last + 1).map(|s| s.1).unwrap_or(journal.len());
-            let meta_path = format!("meta/{}", KEYS[*k as usize]);
-            let overtakes = journal[j0.min(journal.len())..j1.min(journal.len())]
+            // NotFound although every serial order answers. The documented
+            // design re-resolves a stale pointer once: if this task read the
+            // payload of two DIFFERENT generations of the key and both were
+            // gone, two commits overtook it (the recorded deviation). If it
+            // gave up after one payload read, or read the same generation
+            // twice, a single overtake was enough: a different defect.
+            let prefix = format!("gen/{}/", KEYS[*k as usize]);
+            let mut gens: Vec<&str> = labels
                 .iter()
-                .filter(|e| e.task != t && matches!(&e.mutation, vcore::ctlstore::Mutation::Put { path, .. } if *path == meta_path))
-                .count();
+                .filter(|l| l.task == t && l.path.starts_with(&prefix) && !l.path[prefix.len()..].contains('/'))
+                .map(|l| l.path.as_str())
+                .collect();
+            gens.sort();
+            gens.dedup();
+            let overtakes = gens.len();
             if overtakes >= 2 {
                 worst = "not-serializable";
             } else {
@@ -361,16 +458,20 @@ fn run_one(wrap: Wrap, scn: &Scn, serial: &[Serial], ch: &mut Chooser) -> ExecOu
     anda_db_utils::verif::set_clock(Some((1_700_000_000_000, 1000)));
     let (ctl_store, ctl) = CtlStore::new();
     let inner: Arc<dyn ObjectStore> = ctl_store.clone();
-    let store = build(wrap, inner);
+    let store = build(wrap, inner.clone());
     let mut book = Book::default();
     util::block_on(async {
+        // cold scenarios: the setup goes through another instance
+        let setup_store = if scn.cold { build(wrap, inner.clone()) } else { store.clone() };
         for op in &scn.setup {
-            let o = apply_tracked(store.as_ref(), &mut book, op).await;
+            let o = apply_tracked(setup_store.as_ref(), &mut book, op).await;
             assert_eq!(o.class, Class::Ok, "setup op failed: {}", o.err);
         }
     });
     let frozen = book.clone();
     ctl.set_gate(true);
+    // responses in flight are scheduling points too
+    ctl.set_post_gate(true);
     ctl.keep_labels(true);
     // per task: results of its actions, and the token each successful put returned
     let results: Vec<RefCell<Vec<(ActOut, Option<String>)>>> = scn.tasks.iter().map(|_| RefCell::new(Vec::new())).collect();
@@ -392,6 +493,7 @@ fn run_one(wrap: Wrap, scn: &Scn, serial: &[Serial], ch: &mut Chooser) -> ExecOu
                             (ActOut { class: norm(op, o.class), body: None }, o.etag)
                         }
                         Act::Get(k) => (get_act(store_ref, *k).await, None),
+                        Act::List => (list_act(store_ref).await, None),
                     };
                     cell.borrow_mut().push(r);
                 }
@@ -407,7 +509,10 @@ fn run_one(wrap: Wrap, scn: &Scn, serial: &[Serial], ch: &mut Chooser) -> ExecOu
         steps = sched.steps.len();
     }
     ctl.set_gate(false);
-    let labels = canon_labels(&ctl.labels());
+    // only the calls of the tasks: the checks below read through the same store
+    ctl.keep_labels(false);
+    let raw_labels = ctl.labels();
+    let labels = canon_labels(&raw_labels);
     let replay = json!({"wrap": wrap, "scenario": scn.name, "choices": ch.choices()});
     let viol = |what: &str, text: String| {
         Some(Violation {
@@ -423,6 +528,10 @@ fn run_one(wrap: Wrap, scn: &Scn, serial: &[Serial], ch: &mut Chooser) -> ExecOu
     let outs: Vec<Vec<ActOut>> = raw.iter().map(|t| t.iter().map(|(a, _)| a.clone()).collect()).collect();
     // reads afterwards: the live instance and a fresh one must agree
     let cold = build(wrap, ctl_store.clone());
+    if let Some((what, text)) = util::block_on(post_race(store.as_ref(), cold.as_ref())) {
+        let v = viol(&format!("post-race/{what}"), text);
+        return ExecOut { outcome: format!("{} -> post-race {what}", describe_outs(&outs)), violation: v, steps, labels };
+    }
     let (warm_c, cold_c) = util::block_on(async { (content_of(store.as_ref()).await, content_of(cold.as_ref()).await) });
     let outcome;
     let mut violation = None;
@@ -435,7 +544,7 @@ fn run_one(wrap: Wrap, scn: &Scn, serial: &[Serial], ch: &mut Chooser) -> ExecOu
                     format!("live instance reads {} but a fresh instance reads {}", describe(w), describe(c)),
                 );
             } else if !serial.iter().any(|(so, sf, _)| *so == outs && sf == w) {
-                let what = classify(scn, serial, &outs, w, &switches.borrow(), &ctl.journal());
+                let what = classify(scn, serial, &outs, w, &raw_labels);
                 violation = viol(
                     what,
                     format!(
@@ -609,9 +718,9 @@ fn main() {
     run.set("preemption_bound", json!(bound));
     run.rule(
         "per wrapper {MetaStore, EncryptedStore(cs=16)} and scenario (two or three tasks on one key through one wrapper instance over a gated backend): every schedule of inner-store calls with at most `preemption_bound` preemptions; \
-         oracle = answers of every action and final content of all keys equal some serial order of the tasks' atomic steps run on InMemory (a rename is two steps, copy then delete of the source, as documented; everything else is one), live and fresh instance read the same, head/list agree, a surviving put's token is the one it returned; \
+         oracle = answers of every action and final content of all keys equal some serial order of the tasks' atomic steps run on InMemory (a rename is two steps, copy then delete of the source, as documented; everything else is one), after all tasks returned the live instance's list / list_with_delimiter entries, get_ranges at the length boundaries, get with if_match = latest token and head must reflect the last completed commit as a fresh instance reports it (checked before any plain get, which would heal a stale pointer; a listing that overlaps a commit may itself report either version), live and fresh instance read the same, head/list agree, a surviving put's token is the one it returned; \
          distinct = distinct observed (answers, final content) outcomes per harness; states = same; transitions = task polls",
     );
-    run.assume("code between two backend calls runs atomically (single-threaded executor); one scheduling point before every backend call, plus wherever a task blocks on the per-key section");
+    run.assume("code between two backend calls runs atomically (single-threaded executor); one scheduling point before every backend call takes effect and one after it, before its result is delivered (responses in flight), plus wherever a task blocks on the per-key section");
     run.finish();
 }
